@@ -162,3 +162,41 @@ pub fn c10_l2_setup_receiver_zero() {
     let r = hpke::single_shot_open_in_place_detached::<ChaCha20Poly1305, HkdfSha256, Kem>(&hpke::OpModeR::Base, &sk, &enc, &info[..il], &mut buf, &[], &tag);
     assert!(r == Err(HpkeError::DecapError));
 }
+
+// ---- L4 (thorough): CONCRETE runs through the real dalek ladder --------------------------------
+// Zero symbolic variables: regression anchors that tie "small-order encoding" to "all-zero DH output"
+// on the real curve for one scalar each.  That this holds for EVERY scalar is Curve25519 mathematics
+// and is not decided.
+macro_rules! real_ladder_anchor {
+    ($name:ident, $u:expr, $expect_err:expr) => {
+        #[kani::proof]
+        #[kani::unwind(260)]
+        #[kani::stub(zeroize::optimization_barrier, noop_barrier)]
+        pub fn $name() {
+            let mut skb = [0x42u8; 32];
+            skb[0] = 0x11;
+            let sk = Sk::from_bytes(&skb).unwrap();
+            let u: [u8; 32] = $u;
+            let pk = Pk::from_bytes(&u).unwrap();
+            let res = <X25519 as DhKeyExchange>::dh(&sk, &pk);
+            assert!(res.is_err() == $expect_err);
+        }
+    };
+}
+const U_ZERO: [u8; 32] = [0u8; 32];
+const U_ONE: [u8; 32] = {
+    let mut a = [0u8; 32];
+    a[0] = 1;
+    a
+};
+const U_NINE: [u8; 32] = {
+    let mut a = [0u8; 32];
+    a[0] = 9;
+    a
+};
+//@h name=c10_l4_real_ladder_u0 tier=thorough mode=func timeout=7200 desc="CONCRETE anchor through the real curve25519-dalek ladder (no stub): DH with the small-order point u = 0 is rejected" bounds="one concrete scalar, one concrete point"
+real_ladder_anchor!(c10_l4_real_ladder_u0, U_ZERO, true);
+//@h name=c10_l4_real_ladder_u1 tier=thorough mode=func timeout=7200 desc="CONCRETE anchor through the real ladder: DH with the small-order point u = 1 is rejected" bounds="one concrete scalar, one concrete point"
+real_ladder_anchor!(c10_l4_real_ladder_u1, U_ONE, true);
+//@h name=c10_l4_real_ladder_u9 tier=thorough mode=func timeout=7200 desc="CONCRETE anchor through the real ladder: DH with the base point u = 9 (not small order) is NOT rejected" bounds="one concrete scalar, one concrete point"
+real_ladder_anchor!(c10_l4_real_ladder_u9, U_NINE, false);
